@@ -3,6 +3,7 @@
 From Coq Require Import Extraction ExtrOcamlBasic.
 From GoShGen Require Import Extracted.
 From GoSh Require Import Base.Bytes Base.Outcome Store.Env Store.EnvSpec.
+From GoSh Require Import Arith.ASyntax Arith.AEval.
 From GoSh Require Import Pattern.Regex Pattern.PCompile Pattern.Match Pattern.PSpec.
 Extraction Language OCaml.
 Extraction "model.ml"
@@ -11,4 +12,6 @@ Extraction "model.ml"
   Extracted.IFS
   Env.run Env.option_string Env.get EnvSpec.arun EnvSpec.absS
   PCompile.compile_model PCompile.regex_text PCompile.syms_of Match.match_model Match.raw Match.full_match
-  PSpec.spec_prefix PSpec.spec_suffix PSpec.pmb_any.
+  PSpec.spec_prefix PSpec.spec_suffix PSpec.pmb_any
+  ASyntax.alex ASyntax.aparse ASyntax.has_bad ASyntax.is_letter ASyntax.is_udigit ASyntax.uni_universe
+  AEval.eval_model AEval.eval_top_i AEval.eval_c AEval.c_defined AEval.eager_safe AEval.numeric_store AEval.runes_of AEval.parse_int0.
